@@ -107,6 +107,21 @@ class C04(Prop):
             evs = [["sub"]] + pg.rand_events(rng, 2, rng.randint(25, 70), alpha=list(range(-2, 14)), term_p=0.04)
             fl = "threads" if rng.random() < 0.4 else "local"
             out.append(Case("pipe", fl, [("pipe", [pipe])], evs, {"kind": "wide", "op": k}))
+        # two REAL threads (event `remit i n j m`): one input is emitted on this thread and, while the downstream is being
+        # called for it, the other input on another thread.  The operators of this family hold their shared cell while
+        # they call downstream, so the second emission must be ordered behind the first and nothing may be lost (seed
+        # C04-8 released the cell of buffer during the delivery of a window: an item arriving meanwhile vanished)
+        for k in ("buffer", "merge", "zip", "combine"):
+            pipe = [k, ["hot", "0"], ["hot", "1"]]
+            for pre in ([], [["emit", "0", ["n", "1"]]], [["emit", "0", ["n", "1"]], ["emit", "0", ["n", "2"]]],
+                        [["emit", "1", ["n", "7"]]]):
+                for first in ((1, ["n", "8"]), (0, ["n", "3"]), (1, "c")):
+                    for second in ((0, ["n", "4"]), (0, "c"), (0, ["e", "5"]), (1, ["n", "9"]), (1, "c")):
+                        if first[0] == second[0] and k != "buffer":
+                            continue
+                        for tail in ([], [["emit", "1", ["n", "6"]], ["emit", "0", "c"], ["emit", "1", "c"]]):
+                            evs = [["sub"]] + pre + [["remit", str(first[0]), first[1], str(second[0]), second[1]]] + tail
+                            out.append(Case("pipe", "threads", [("pipe", [pipe])], evs, {"kind": "race", "op": k}))
         return out
 
     def oracle(self, case, lines, model_lines=None):
